@@ -298,6 +298,12 @@ def run_scenario(ops, entry_points, hook_reconnect=False):
             b.op_close(op[1])
         elif k == "api":
             b.op_api()
+        elif k == "apiall":
+            # every entry point, both argument variants, in the current stage
+            b.ep_i = 0
+            for _ in range(2 * len(entry_points)):
+                b.sync()
+                b.op_api()
         elif k == "subscribe":
             b.op_subscribe()
         elif k == "closure":
@@ -366,6 +372,16 @@ def gen(ck: Check):
                     inj = [("close", cause)] + ([] if same_turn else [I]) + [probe, ("closure",), ("api",), I, ("start",), I]
                     second = session(rng, "ok", stage, inj)
                     scen.append(first + second + [I, ("start",), I, ("api",), ("closure",)])
+    # the whole API surface in every stage without an authenticated session: before any connect, at each stage of an
+    # attempt, after each kind of failed attempt, after the end of a session
+    scen.append([("apiall",)])
+    for stage in ["s0", "s1", "s2", "s3", "s4"]:
+        scen.append(session(rng, "ok", None, []) + [("close", "peer"), I] + session(rng, "ok", stage, [("apiall",)]))
+        scen.append(session(rng, "ok", stage, [("apiall",)]))
+    for oc in ["resolve_fail", "sock_fail", "hello_bad", "between"]:
+        scen.append(session(rng, oc, None, []) + [I, ("apiall",)])
+    for cause in CLOSES:
+        scen.append(session(rng, "ok", None, []) + [("close", cause), ("apiall",), I, ("apiall",)])
     n = 2500 if thorough else 350
     for _ in range(n):
         ops = []
